@@ -12,7 +12,8 @@ META = dict(
          "exactly equal to it, and the real WireLog (buffify) must hold exactly the accepted chunks. The queues are also "
          "handed over as bytearray objects (total <= 3 / 6) and with one bytearray object queued twice in a row; delivery "
          "must still be exact and the caller's objects unchanged afterwards; and with bufsize / .bs = 2, smaller than a "
-         "message and than the backlog (total <= 4 / 7). Two connections accepted by one real Server / ServerTls are "
+         "message and than the backlog (total <= 4 / 7), and = 1, so that messages are exact multiples of it (total <= 3 / 6). "
+         "Two connections accepted by one real Server / ServerTls are "
          "driven together (messages queued alternately, every interleaving of their serviceTxes; and: one dies with data "
          "queued, a new one is accepted) with a per-connection oracle. Receive side: a "
          "stream of 1-6 (9) distinct bytes is delivered with every cut and would-block pattern, through serviceReceives "
@@ -26,9 +27,9 @@ import itertools
 
 from mc import core, net
 
-QUICK = dict(tx_total=6, tx_stalls=2, rx_total=6, rx_stalls=2, ba_total=3, smallbs_total=4,
+QUICK = dict(tx_total=6, tx_stalls=2, rx_total=6, rx_stalls=2, ba_total=3, smallbs_total=4, bs1_total=3,
              pairs=(((2,), (2,)), ((1, 2), (2,))), pair_stalls=1)
-THOROUGH = dict(tx_total=9, tx_stalls=3, rx_total=9, rx_stalls=3, ba_total=6, smallbs_total=7,
+THOROUGH = dict(tx_total=9, tx_stalls=3, rx_total=9, rx_stalls=3, ba_total=6, smallbs_total=7, bs1_total=6,
                 pairs=(((2,), (2,)), ((1, 2), (2,)), ((3,), (1, 2)), ((2, 1), (1, 2))), pair_stalls=2)
 ALPHABET = b"abcdefghijklmnopqrstuvwxyz"
 TRANSPORTS = ("Client", "ClientTls", "Incomer", "IncomerTls", "Driver", "DriverDeviceNb")
@@ -539,6 +540,8 @@ def configs(tier):
                 out.append(("tx", kind, lens, b["tx_stalls"], "bytearray"))
             if sum(lens) <= b["smallbs_total"]:       # buffer size smaller than a message / than the backlog
                 out.append(("tx", kind, lens, b["tx_stalls"], "bytes", 2))
+            if sum(lens) <= b["bs1_total"]:           # bufsize 1: message lengths 2 and 3 are exact multiples >= 2*bs
+                out.append(("tx", kind, lens, b["tx_stalls"], "bytes", 1))
     for lens in ((1,), (2,), (3,), (2, 1), (3, 1)):       # first message queued twice as one object, then the rest
         for kind in TRANSPORTS:
             out.append(("tx", kind, lens, b["tx_stalls"], "twice"))
@@ -620,7 +623,7 @@ def run():
         rule="per transport class: every queue of 1-3 messages of 1-3 bytes with total <= %(tx_total)d x every sequence of "
              "send answers (each count len..0, would-block, TLS want-read) with <= %(tx_stalls)d non-progress answers, "
              "messages as bytes, as bytearrays (total <= %(ba_total)d), with the first bytearray object queued twice, and as bytes "
-             "with bufsize 2 (total <= %(smallbs_total)d); two Incomers / IncomerTls of one server, both live under every "
+             "with bufsize 2 (total <= %(smallbs_total)d) and bufsize 1 (total <= %(bs1_total)d); two Incomers / IncomerTls of one server, both live under every "
              "service interleaving and dead-then-new; every "
              "stream of 1..%(rx_total)d bytes x bufsize {8096,2} x {serviceReceives, serviceReceiveOnce} x every sequence "
              "of recv answers (each cut, would-block) with <= %(rx_stalls)d would-blocks; non-trivial = at least one "
